@@ -25,7 +25,12 @@ RULE = (
     "alternatives, criteria} (+ `hparams`, `dtypes: None`; both signature styles). Every input is inside the numeric domain "
     "of the steps by construction (positive where a division needs it, no constant column for range/variance based steps, "
     ">= 3 alternatives for the statistical weighters); an exception is judged only if the failing step's own input is in "
-    "its domain. One extra case per run holds the table extracted from the tree (class x target -> rewritten keys). "
+    "its domain. IMPUTERS ON A CRITERION WITHOUT ANY OBSERVED VALUE: the three imputers x keep_empty_criteria in {default, "
+    "False, True} on matrices with one or two all-missing criteria; oracle: a refusal (ValueError) or an answer with exactly "
+    "the input's criteria, objectives and weights. ONE OBJECT, TWO MATRICES: the same pipeline object (and single transformer "
+    "object) applied consecutively to two matrices with identical labels, objectives and dtypes whose weights / values differ "
+    "slightly (one weight + 3e-9, one cell x (1 + 1e-7), both) or clearly (or not at all); each output is judged against ITS "
+    "OWN input by the same part-by-part bit comparison, and must be a new object. One extra case per run holds the table extracted from the tree (class x target -> rewritten keys). "
     "Non-trivial: the transform answered and changed at least one part; distinct by case hash."
 )
 ASSUMPTIONS = [
@@ -371,10 +376,77 @@ def _every_builtin(rng):
     return [{"dm": dm, "steps": [spec], "pipe": rng.random() < 0.33} for dm, spec in out]
 
 
-def _random_cases(rng, n_sweeps, n_user, n_pipe, n_mask=1):
+def _empty_criterion_cases(rng):
+    """every imputer x keep_empty_criteria in {False (the default), True} on a matrix with a criterion (sometimes two) whose
+    values are ALL missing; the other criteria are complete or have some missing cells"""
+    out = []
+    for cls in IMPUTERS:
+        for keep in (False, True):
+            dm = _dm(rng, min_m=4, min_n=rng.choice([1, 2, 2, 3]), nan=rng.random() < 0.5, dtypes=rng.choice(["mixed", "float", "float"]))
+            n = len(dm["criteria"])
+            for j in rng.sample(range(n), 1 if n < 3 or rng.random() < 0.7 else 2):
+                dm["dtypes"][j] = "float64"
+                for row in dm["matrix"]:
+                    row[j] = None
+            params = dict(_imputer_params(rng, cls))
+            params.pop("keep_empty_criteria", None)
+            if keep or rng.random() < 0.5:  # False: half of the time left to the default
+                params["keep_empty_criteria"] = keep
+            out.append({"dm": dm, "steps": [{"k": "imputer", "cls": cls, "params": params}], "pipe": rng.random() < 0.33})
+    return out
+
+
+SEQ_HOW = ["weight-nudge", "cell-nudge", "both-nudge", "clear", "clear-weights", "same"]
+
+
+def _second_dm(rng, dm, how):
+    """a second matrix with the same labels, objectives and dtypes whose weights / values differ slightly (one weight
+    + 3e-9, one cell x (1 + 1e-7)) or clearly"""
+    d2 = dict(dm, matrix=[list(r) for r in dm["matrix"]], weights=list(dm["weights"]))
+    m, n = len(d2["matrix"]), len(d2["criteria"])
+    cells = [(i, j) for i in range(m) for j in range(n) if dm["dtypes"][j] == "float64" and d2["matrix"][i][j] not in (None, 0, 0.0)]
+    if how in ("cell-nudge", "both-nudge") and not cells:
+        how = "weight-nudge"
+    if how in ("weight-nudge", "both-nudge"):
+        j = rng.randrange(n)
+        d2["weights"][j] = d2["weights"][j] + 3e-9
+    if how in ("cell-nudge", "both-nudge"):
+        i, j = rng.choice(cells)
+        d2["matrix"][i][j] = d2["matrix"][i][j] * (1 + 1e-7)
+    if how in ("clear", "clear-weights"):
+        j = rng.randrange(n)
+        d2["weights"][j] = d2["weights"][j] * 1.5 + 0.25
+    if how == "clear":
+        i, j = rng.randrange(m), rng.randrange(n)
+        if d2["matrix"][i][j] is not None:
+            d2["matrix"][i][j] = d2["matrix"][i][j] + 1
+    return d2, how
+
+
+def _sequence_cases(rng, n_pipe, n_single):
+    """ONE transformer / pipeline object applied consecutively to two matrices (each output is judged against its own input)"""
+    out = []
+    for _ in range(n_pipe):
+        c = _pipeline(rng)
+        c["dm2"], c["seq"] = _second_dm(rng, c["dm"], rng.choice(SEQ_HOW[:5] if rng.random() < 0.9 else SEQ_HOW))
+        out.append(c)
+    kinds = ["scaler", "scaler", "scaler", "cenit", "weighter", "weighter", "inverter", "filter", "nondom", "imputer", "user", "user"]
+    for _ in range(n_single):
+        dm, spec = _single(rng, rng.choice(kinds))
+        if spec is None:
+            continue
+        c = {"dm": dm, "steps": [spec], "pipe": rng.random() < 0.5}
+        c["dm2"], c["seq"] = _second_dm(rng, dm, rng.choice(SEQ_HOW[:5] if rng.random() < 0.9 else SEQ_HOW))
+        out.append(c)
+    return out
+
+
+def _random_cases(rng, n_sweeps, n_user, n_pipe, n_mask=1, n_seq=(60, 40)):
     cases = []
     for _ in range(n_sweeps):
         cases.extend(_every_builtin(rng))
+        cases.extend(_empty_criterion_cases(rng))
+    cases.extend(_sequence_cases(rng, *n_seq))
     cases.extend(_fn_mask_cases(rng, n_mask))
     for _ in range(n_user):
         dm, spec = _single(rng, "user")
@@ -386,11 +458,12 @@ def _random_cases(rng, n_sweeps, n_user, n_pipe, n_mask=1):
 
 def gen(ctx):
     rng = ctx.rng
-    return [{"table": True}] + _random_cases(rng, ctx.n(5, 70), ctx.n(70, 1000), ctx.n(110, 1600), ctx.n(2, 20))
+    return [{"table": True}] + _random_cases(rng, ctx.n(5, 70), ctx.n(70, 1000), ctx.n(110, 1600), ctx.n(2, 20),
+                                             (ctx.n(70, 900), ctx.n(50, 600)))
 
 
 def search_gen(ctx):
-    return _random_cases(ctx.rng, 12, 150, 250, 3)
+    return _random_cases(ctx.rng, 12, 150, 250, 3, (150, 100))
 
 
 # --------------------------------------------------------------------------- implementation side
@@ -610,17 +683,31 @@ def _observe(case):
     from skcriteria.agg.simple import WeightedSumModel
     from skcriteria.pipeline import mkpipe
 
-    dm = build_dm(case["dm"])
-    before = snapshot(dm)
-    record = []
+    record, made = [], {}
     steps = [build_step(s, i, record) for i, s in enumerate(case["steps"])]
     use_pipe = case.get("pipe") or len(steps) != 1
+
+    def transformer():  # ONE object for the whole case
+        if "T" not in made:
+            made["T"] = mkpipe(*steps, WeightedSumModel()) if use_pipe else steps[0]
+        return made["T"]
+
+    obs, res1 = _apply(transformer, case["dm"], case["steps"], record)
+    if case.get("seq"):
+        # the SAME object applied to a second matrix right afterwards
+        obs["second"], res2 = _apply(transformer, case["dm2"], case["steps"], record)
+        if res1 is not None and res2 is not None:
+            obs["second"]["same_as_previous_output"] = res2 is res1
+    return obs
+
+
+def _apply(transformer, d, specs, record):
+    dm = build_dm(d)
+    before = snapshot(dm)
+    n0 = len(record)
     obs = {"before": before}
     try:
-        if use_pipe:
-            res = mkpipe(*steps, WeightedSumModel()).transform(dm)
-        else:
-            res = steps[0].transform(dm)
+        res = transformer().transform(dm)
     except Exception as e:
         obs["err"] = G.err_name(e)
         obs["msg"] = str(e)[:200]
@@ -628,7 +715,7 @@ def _observe(case):
         # which step fails, and was its own input inside its domain?
         cur, failing, dom = dm, None, None
         record2 = []
-        for i, s in enumerate(case["steps"]):
+        for i, s in enumerate(specs):
             dom = bool(in_domain(s, cur.to_dict()))
             try:
                 cur = build_step(s, i, record2).transform(cur)
@@ -637,12 +724,12 @@ def _observe(case):
                 break
         obs["failing_step"] = failing
         obs["in_domain"] = bool(dom) if failing is not None else True
-        return obs
+        return obs, None
     obs["after"] = snapshot(res)
     obs["same_object"] = res is dm
     obs["input_after"] = snapshot(dm)
-    obs["user_returned"] = record
-    return obs
+    obs["user_returned"] = record[n0:]
+    return obs, res
 
 
 # --------------------------------------------------------------------------- model side
@@ -667,10 +754,14 @@ def _model_step(spec):
 def requests(case, obs):
     if case.get("table"):
         return [{"op": "c10_declared", "family": fam, "target": t} for _, _, fam, t, _, _ in obs["rows"]]
-    if "err" in obs:
-        return []
     return [{"op": "c10_frame", "steps": [_model_step(s) for s in case["steps"]],
-             "before": [_token(p, obs["before"][p]) for p in PARTS], "after": [_token(p, obs["after"][p]) for p in PARTS]}]
+             "before": [_token(p, o["before"][p]) for p in PARTS], "after": [_token(p, o["after"][p]) for p in PARTS]}
+            for o in _applications(obs) if "err" not in o]
+
+
+def _applications(obs):
+    """the observation of every application of the case's one transformer object, in order"""
+    return [obs] + ([obs["second"]] if "second" in obs else [])
 
 
 # --------------------------------------------------------------------------- the property, from its text
@@ -738,6 +829,24 @@ def judge(case, obs, replies):
                             "expected": rep["parts"], "observed": written})
         return out
     label = _label(case)
+    apps = _applications(obs)
+    reps = iter(replies)
+    for k, o in enumerate(apps):
+        lab = label
+        if len(apps) > 1:  # each output is judged against ITS OWN input
+            lab += f" [ONE object applied to two matrices in a row (second: {case['seq']}); application {k + 1}, own input]"
+        _judge_one(case, case["dm2"] if k else case["dm"], o, next(reps) if "err" not in o else None, lab, out)
+        if o.get("same_as_previous_output"):
+            out.append({"kind": "property", "what": f"{lab}: returned the object it had returned for the previous matrix, not a new matrix",
+                        "expected": "a new DecisionMatrix", "observed": "the previous output object"})
+    return out
+
+
+def _empty_criteria(d):
+    return [c for j, c in enumerate(d["criteria"]) if d["matrix"] and all(row[j] is None for row in d["matrix"])]
+
+
+def _judge_one(case, d, obs, rep, label, out):
     steps = case["steps"]
 
     def prop(what, expected=None, observed=None):
@@ -754,6 +863,11 @@ def judge(case, obs, replies):
         if obs["in_domain"]:
             where = "" if obs["failing_step"] is None else f" (step {obs['failing_step']}, whose own input is inside its domain)"
             prop(f"did not return a decision matrix: raised {obs['err']}: {obs['msg']}{where}", "a new decision matrix", obs["err"])
+        elif len(steps) == 1 and steps[0]["k"] == "imputer" and _empty_criteria(d) and obs["err"] != "ValueError":
+            # a criterion without any observed value: the imputer either refuses (ValueError) or answers with exactly
+            # the input's criteria, objectives and weights (judged below like every other answer)
+            prop(f"criterion {_empty_criteria(d)} has no observed value: neither a refusal (ValueError) nor a matrix with the "
+                 f"same criteria: raised {obs['err']}: {obs['msg']}", "ValueError, or the same criteria / objectives / weights", obs["err"])
         return out
     a = obs["after"]
     if obs.get("same_object") and steps:
@@ -825,7 +939,6 @@ def judge(case, obs, replies):
             prop(f"an objective inverter changed the values of maximise criteria {bad}", "unchanged", bad)
 
     # ---- correspondence with the model
-    rep = replies[0]
     changed = [p for p in PARTS if _token(p, a[p]) != _token(p, b[p])]
     if rep["changed"] != changed:
         corr("model and harness disagree on which parts differ", rep["changed"], changed)
@@ -841,9 +954,8 @@ def judge(case, obs, replies):
 def nontrivial(case, obs):
     if case.get("table"):
         return True
-    if "err" in obs:
-        return False
-    return any(_token(p, obs["after"][p]) != _token(p, obs["before"][p]) for p in PARTS)
+    return any("err" not in o and any(_token(p, o["after"][p]) != _token(p, o["before"][p]) for p in PARTS)
+               for o in _applications(obs))
 
 
 def tags(case, obs):
@@ -877,6 +989,14 @@ def tags(case, obs):
                 t.append("user:relabels")
         else:
             t.append("cls:" + s["cls"])
+    if case.get("seq"):
+        t.append("one-object-two-matrices:" + case["seq"])
+        o2 = obs.get("second", {})
+        t.append("second:" + ("raised:" + o2["err"] if "err" in o2 else "answered"))
+    if any(s["k"] == "imputer" for s in case["steps"]) and _empty_criteria(case["dm"]):
+        keep = [s["params"].get("keep_empty_criteria", "default") for s in case["steps"] if s["k"] == "imputer"][0]
+        t.append("all-missing-criterion:%s/keep_empty=%s:%s" % (
+            [s["cls"] for s in case["steps"] if s["k"] == "imputer"][0], keep, "refused:" + obs["err"] if "err" in obs else "answered"))
     if "err" in obs:
         t.append("raised:%s:%s" % (obs["err"], "in-domain" if obs["in_domain"] else "out-of-domain"))
         return t
